@@ -1,0 +1,7 @@
+//! Verification hook for property C12 (read-only): exposes the private budget of the cache of
+//! encoded sixel images.
+
+/// `IMAGE_CACHE_SIZE` as the compiler sees it.
+pub fn image_cache_size() -> usize {
+    super::IMAGE_CACHE_SIZE
+}
